@@ -97,6 +97,9 @@ type Features struct {
 	// DebugImp "other": the file imports a user package named debug (the
 	// generated code needs runtime/debug)
 	DebugImp string `json:"debug_imp,omitempty"`
+	// SplitOpts: "results" / "params" / "both": one cff.Results (cff.Params) option per target (value); "results-spread": the first
+	// target where the option stands, the others behind the tasks
+	SplitOpts string `json:"split_opts,omitempty"`
 	// IdentArg: the IdentPos-th eligible directive argument (Params value,
 	// Concurrency/ContinueOnError value, collection, emitter; -1 = the last
 	// one) is passed as a bare identifier of this name, declared in the
